@@ -290,7 +290,8 @@ def c15_r6(ctx):
     eb, srcb, ifb = elt(b, "operation_str")
     ctx.check(ea == eb and ifa == ifb == [], key(a, "line constants"), f"operations module builds lines as {ea} {ifa}, the client as {eb} {ifb}", a.loc(), okmsg=f"both emit {ea} per line, unfiltered")
     comp = [n for n in walk_no_nested(a.node) if isinstance(n, (ast.ListComp, ast.GeneratorExp)) and norm(n.generators[0].iter) == "self._operations_gqls.items()"]
-    good = len(comp) == 1 and "targets=[self._operations_variables[name]]" in norm(comp[0].elt)
+    from ..util import comp_struct as _cs2
+    good = len(comp) == 1 and "targets=[self._operations_variables[$0_0]]" in _cs2(comp[0])[0]
     ctx.check(good, key(a, "one constant per operation"), "not every stored operation string gets its module constant", a.loc(), okmsg="one module constant per stored operation")
 
 
